@@ -59,14 +59,14 @@ func (c *c08Case) Exec() {
 	open := func() []sstables.SSTableReaderI {
 		var rs []sstables.SSTableReaderI
 		for i := range c.Tables {
-			r, err := sstables.NewSSTableReader(ropts(filepath.Join(dir, fmt.Sprintf("t%d", i)))...)
+			r, err := sstables.NewSSTableReader(ropts(filepath.Join(dir, c08Dir(i)))...)
 			must(err)
 			rs = append(rs, r)
 		}
 		return rs
 	}
 	for i, t := range c.Tables {
-		d := filepath.Join(dir, fmt.Sprintf("t%d", i))
+		d := filepath.Join(dir, c08Dir(i))
 		must(os.MkdirAll(d, 0755))
 		if c.Rev {
 			t = append([]tblKV(nil), t...)
@@ -415,3 +415,7 @@ func init() {
 	})
 	_ = errors.New
 }
+
+// c08Dir: the directory of table i (0 = oldest). The names sort in the reverse of the age order and have different
+// lengths: the order of a stack is the order in which the readers are given, never an order of their paths
+func c08Dir(i int) string { return fmt.Sprintf("t%d", 1000-97*i) }
